@@ -122,7 +122,7 @@ Fixpoint recovers_obs_aux (w : Z) (last : option Z) (calls : list (Z * Z * bool)
 Definition pure_case (ops : list json) : bool :=
   forallb (fun o => String.eqb (jfS "op" o) "do" || String.eqb (jfS "op" o) "status") ops.
 
-Definition jstrs (l : list string) : json := JArr (map JStr l).
+Definition jstrs := jstrs_of.
 
 Definition check_breaker (c : json) : json :=
   let limit := jfZ "limit" c in
